@@ -234,12 +234,37 @@ func c06Feed(p C06Proc, f *C06Frame) c06Outcome {
 // runSeq feeds seq to one new processor and judges frames from index `from` on. canonical tells
 // which collector receives the findings; counted tells whether this shard owns the case.
 func (d *c06Driver) runSeq(m *C06Mode, seq []*C06Frame, from int, canonical, counted bool) {
+	d.runSeqMem(m, seq, from, canonical, counted, false)
+}
+
+// runSeqMem: with ring set, all frames of the sequence are delivered in the SAME memory (one backing
+// array, each frame copied to its start and handed over as b[:n:n]), the way a zero-copy packet ring
+// hands out the same slot again: whatever the processor kept a reference to is overwritten by the
+// next frame.
+func (d *c06Driver) runSeqMem(m *C06Mode, seq []*C06Frame, from int, canonical, counted, ring bool) {
 	p := m.New()
+	var ringBuf []byte
+	if ring {
+		max := 0
+		for _, fr := range seq {
+			if len(fr.B) > max {
+				max = len(fr.B)
+			}
+		}
+		ringBuf = make([]byte, max)
+	}
 	validBefore := false
 	var emitted []C06Rec // as rendered when they were emitted
 	var emittedBy []int
 	for k, fr := range seq {
-		out := c06Feed(p, fr)
+		var out c06Outcome
+		if ring {
+			n := copy(ringBuf, fr.B)
+			recs, pan := p.Feed(ringBuf[:n:n])
+			out = c06Outcome{recs, pan}
+		} else {
+			out = c06Feed(p, fr)
+		}
 		if now := p.Retained(); k >= from && out.pan == nil {
 			for i := range emitted {
 				if i < len(now) && now[i].String() != emitted[i].String() && (canonical || counted) {
@@ -306,6 +331,9 @@ func (d *c06Driver) runSeq(m *C06Mode, seq []*C06Frame, from int, canonical, cou
 		}
 		if kind != "" && k >= from {
 			name := fr.Name()
+			if ring {
+				name += "-same-memory"
+			}
 			fresh := out
 			if k > 0 {
 				fresh = c06Feed(m.New(), fr)
@@ -518,6 +546,7 @@ func C06Run(env *C06Env, part string, modes []C06Mode) (rule string) {
 			env.Eval(depth)
 			env.Nontrivial(depth)
 			d.runSeq(m, seq, 0, false, true)
+			d.runSeqMem(m, seq, 0, false, false, true)
 		}
 	}
 
@@ -547,7 +576,7 @@ func C06Run(env *C06Env, part string, modes []C06Mode) (rule string) {
 	}
 	return fmt.Sprintf("per processor mode: %d-frame seeds; every truncation of every seed + steering-field alphabets (IP version x IHL x total length x protocol x fragment word, TCP data offset, transport cut at every length, ethertypes incl. 802.1Q/LLC/bridged Ethernet, nested IPv4 depth 1-3, ARP htype x ptype x hlen x plen x op exact-cut and padded); "+
 		"every single-byte substitution of every seed byte (255 values); thorough: every double substitution over the steering bytes; each frame judged twice (new processor, processor that just handled a valid frame), frames handed over with cap==len; "+
-		"all ordered %d-tuples over %d representative frames through one processor instance. Counted non-trivial = byte string not seen before in that mode (per shard); "+
+		"all ordered %d-tuples over %d representative frames through one processor instance, each tuple twice: every frame in memory of its own, and all frames of the tuple in the same memory (as a zero-copy ring re-uses a slot). Counted non-trivial = byte string not seen before in that mode (per shard); "+
 		"oracle = independent decoder zzref: no panic, <=1 record, record only if the scanned protocol's full header chain is in that frame, every record field equal to that frame's field",
 		nSeed/len(modes), depth, nReps)
 }
